@@ -155,7 +155,7 @@ func (r *run) localCallArrived(q *theirQuestion) {
 			return
 		}
 		if lc.their != nil {
-			r.s.Fail("call_sent_twice", "import.go:(*importClient).Send", fmt.Sprintf("local call %d was sent to the peer twice", q.token))
+			r.mfail("call_sent_twice", "import.go:(*importClient).Send", fmt.Sprintf("local call %d was sent to the peer twice", q.token))
 			return
 		}
 		lc.their = q
@@ -417,7 +417,13 @@ func (r *run) callerTask(id int, nops int) {
 			}
 			switch cpc {
 			case 0:
-				ps.cap = r.apps[s.Choice("caller-app", len(r.apps))].client // a local capability: becomes an export
+				ap := r.apps[s.Choice("caller-app", len(r.apps))]
+				if ap.handedOver {
+					ap = r.apps[0] // (the application kept no reference of its own to that one)
+				}
+				if !ap.handedOver {
+					ps.cap = ap.client // a local capability: becomes an export
+				}
 			case 1:
 				ps.cap = clients[s.Choice("caller-client2", len(clients))] // an import: receiverHosted
 			}
@@ -760,7 +766,16 @@ func (r *run) mainTask() {
 		r.tr.plan.recvEOFAt = r.fault.at
 	}
 	boot := r.newAppCap()
-	for i := s.Choice("extra-apps", 3); i > 0; i-- {
+	// extra-apps 3..5: the same 0..2 extra capabilities, and the application keeps no reference of
+	// its own to the bootstrap capability - the Conn owns it, which is the usual way to use
+	// Options.BootstrapClient (its Shutdown then runs inside the Conn's teardown paths)
+	extra := s.Choice("extra-apps", 6)
+	if extra >= 3 {
+		extra -= 3
+		boot.dropped, boot.handedOver = true, true
+		s.Probe("bootstrap_capability_owned_by_the_connection")
+	}
+	for i := extra; i > 0; i-- {
 		r.newAppCap()
 	}
 	var transport rpc.Transport = r.tr
@@ -789,7 +804,11 @@ func (r *run) mainTask() {
 			s.Probe("packed_stream_transport")
 		}
 	}
-	r.conn = rpc.NewConn(transport, &rpc.Options{BootstrapClient: boot.client.AddRef(), ErrorReporter: reporter{r}})
+	bc := boot.client
+	if !boot.handedOver {
+		bc = boot.client.AddRef()
+	}
+	r.conn = rpc.NewConn(transport, &rpc.Options{BootstrapClient: bc, ErrorReporter: reporter{r}})
 	r.peerBudget = 2 + s.Choice("peer-budget", 10)
 	if r.prop == "C08" {
 		r.hostile = true
@@ -1030,7 +1049,9 @@ func (r *run) checkQuiescentTables() {
 	// drop the harness' references of non-bootstrap application capabilities: they must be shut down now
 	for _, a := range r.apps[1:] {
 		a.dropped = true
-		a.client.Release()
+		if !a.handedOver {
+			a.client.Release()
+		}
 		if a.shutdown != 1 && !s.Failed() {
 			s.Fail("export_leak", "export.go:(*Conn).releaseExport", fmt.Sprintf("application capability %d is still referenced by the Conn although the peer released every export and finished every question", a.id))
 			return
